@@ -281,6 +281,14 @@ def run(pid, spec, prop_index, pkg, pkgdir, tier, replay, verif_seed, scratch, t
             for j in jobs:
                 if j.get("kind", "rapid") == "rapid" and not j.get("noscale"):
                     j["checks"] = max(1, int(j["checks"] * scale))
+        if tier == "thorough":
+            try:
+                tscale = float(os.environ.get("VERIF_THOROUGH_SCALE", "3"))
+            except ValueError:
+                tscale = 3.0
+            for j in jobs:
+                if j.get("kind", "rapid") == "rapid" and not j.get("noscale"):
+                    j["checks"] = max(1, int(j["checks"] * tscale))
         jobs.append({"name": "known", "run": "^TestKnown$", "kind": "plain", "shards": 1})
     need_plain = any(not j.get("race") for j in jobs if j.get("kind") != "fuzz")
     need_race = any(j.get("race") for j in jobs if j.get("kind") != "fuzz")
